@@ -94,6 +94,16 @@ def classify_server(res, nfiles):
     return None
 
 
+def died_in_mapr(out):
+    """index of the runtime's death message when the process died inside dtail's mapreduce code (a data race on the
+    group maps shows as 'fatal error: concurrent map ...' or as a panic in the map code), else -1"""
+    for mark in ("fatal error:", "panic:"):
+        i = out.find(mark)
+        if i >= 0 and "dtail/internal/mapr" in out[i:i + 6000]:
+            return i
+    return -1
+
+
 def run(tier, replay):
     V = vlib.Verdict(PID, tier)
     kf_exit = ("KF_AggExitUnregistered" in V.kf) or ("KF_AggExitInFlight" in V.kf)
@@ -297,8 +307,8 @@ def run(tier, replay):
         # the periodic reporter rendering interim results while the servers' handlers are still merging
         ro = os.path.join(wd, "reporter.json")
         rc, out = vlib.go_test(wd, "./internal/clients/handlers", OVC, "TestC06Reporter", env={"VERIF_OUT": ro, "VERIF_N": 3000 if tier == "quick" else 40000}, timeout=900)
-        if rc != 0 and "fatal error: concurrent map" in out:
-            i = out.index("fatal error: concurrent map")
+        if rc != 0 and died_in_mapr(out) >= 0:
+            i = died_in_mapr(out)
             V.violation("the client process died while the reporter rendered an interim result: " + out[i:i + 60].splitlines()[0],
                         {"output": out[i:i + 1500]})
             rep = {"expected": 0, "counted": 0, "reports": 0}
@@ -311,8 +321,8 @@ def run(tier, replay):
         # many servers reporting the same groups at the same moment
         mo = os.path.join(wd, "mergestress.json")
         rc, out = vlib.go_test(wd, "./internal/clients/handlers", OVC, "TestC06MergeStress", env={"VERIF_OUT": mo, "VERIF_N": 4000 if tier == "quick" else 60000}, timeout=900)
-        if rc != 0 and "fatal error: concurrent map" in out:
-            i = out.index("fatal error: concurrent map")
+        if rc != 0 and died_in_mapr(out) >= 0:
+            i = died_in_mapr(out)
             V.violation("the client process died while 16 handlers merged partial results for the same groups: " + out[i:i + 60].splitlines()[0],
                         {"output": out[i:i + 1500]})
         elif rc != 0 or not os.path.exists(mo):
